@@ -2,9 +2,11 @@ package link
 
 import (
 	"bytes"
+	"errors"
 	"fmt"
 	"io"
 	"math/big"
+	"os"
 	"sort"
 	"strings"
 
@@ -58,6 +60,7 @@ func genC16(r *kernel.Rand, sc *kernel.Scenario, tier string, run int, exhaustiv
 				}
 			}
 		}
+		sc.Faults = append(sc.Faults, kernel.St("readto", "every", []int{0, 1, 3}[run%3], "seed", int64(r.Uint64()>>2)))
 		for ser := 0; ser < 2; ser++ {
 			sc.Faults = append(sc.Faults, kernel.St("part", "kind", "one", "ser", ser),
 				kernel.St("part", "kind", "writes", "ser", ser), kernel.St("part", "kind", "split-enum", "ser", ser, "seed", int64(r.Uint64()>>2)))
@@ -91,6 +94,15 @@ func genC16(r *kernel.Rand, sc *kernel.Scenario, tier string, run int, exhaustiv
 		// cap, then sampled) fails once; a Send whose write failed must report it,
 		// and exactly the envelopes reported as sent must arrive
 		sc.Faults = append(sc.Faults, kernel.St("writeerr", "cap", 60, "seed", int64(r.Uint64()>>2)))
+	}
+	if r.Bool(0.5) {
+		// read deadlines: the reader's deadline expires once at a stream offset
+		// (all offsets of short streams, the first bytes of every frame and
+		// sampled offsets of long ones) while the bytes arrive in pieces of
+		// "every"; the Recv that meets it fails or returns the right envelope,
+		// it never returns another envelope and never asks for bytes that were
+		// not sent
+		sc.Faults = append(sc.Faults, kernel.St("readto", "every", []int{0, 1, 3, 7, 64}[r.Intn(5)], "seed", int64(r.Uint64()>>2)))
 	}
 	for ser := 0; ser < 2; ser++ {
 		sc.Faults = append(sc.Faults,
@@ -235,6 +247,47 @@ func recvAll(ser int, data []byte, writes []int, s Schedule, n int) (canon [][]b
 	}
 	_ = conn.Close()
 	return canon, envs, -1, nil, l.B.Reads()
+}
+
+// recvWithTimeout reads the stream with one expired read deadline at offset
+// at. The connection counts as broken after the first failed Recv, as a user
+// of ioConn treats it. Until then every Recv must return the envelope that
+// was sent at its position; a Recv may fail only if it met the deadline, and
+// no Recv may ask for bytes beyond the end of what was sent (on a real
+// connection it would wait for them for ever).
+func recvWithTimeout(ser int, data []byte, writes []int, s Schedule, at int, ref [][]byte, res *kernel.Result) (check, detail string) {
+	l := Preload(data, writes)
+	l.B.SetSchedule(s)
+	l.B.ReadTimeoutsAt(at)
+	conn := wirenet.NewIoConn(l.B, serializers[ser])
+	for i := range ref {
+		fired := l.B.TimeoutsFired()
+		o := guarded(func() (any, error) { return conn.Recv() })
+		met := l.B.TimeoutsFired() > fired
+		switch {
+		case o.paniced:
+			return "C16.read-timeout-panic@" + serNames[ser], fmt.Sprintf("Recv %d: panic in %s: %v", i, o.site, o.pval)
+		case o.err != nil && (errors.Is(o.err, ErrStarved) || strings.Contains(o.err.Error(), ErrStarved.Error())):
+			return "C16.read-timeout-desync@" + serNames[ser] + "/reads-past-stream", fmt.Sprintf("Recv %d went on after the timeout and asked for bytes that were never sent (it would wait for ever): %v", i, o.err)
+		case o.err != nil && !met:
+			return "C16.read-timeout-desync@" + serNames[ser] + "/error-without-timeout", fmt.Sprintf("Recv %d failed without having met the deadline: %v", i, o.err)
+		case o.err != nil:
+			if errors.Is(o.err, os.ErrDeadlineExceeded) {
+				res.Count("probe.read-timeout-reported", 1)
+			} else {
+				res.Count("probe.read-timeout-reported-as-another-error", 1)
+			}
+			return "", ""
+		}
+		if met {
+			res.Count("probe.read-timeout-absorbed", 1)
+		}
+		c := guarded(func() (any, error) { return encodeNative(kinds[0], o.v.(*wire.Envelope)) })
+		if c.paniced || c.err != nil || !bytes.Equal(c.v.([]byte), ref[i]) {
+			return "C16.read-timeout-desync@" + serNames[ser] + "/wrong-envelope", fmt.Sprintf("Recv %d returned an envelope that differs from the %d-th envelope sent", i, i)
+		}
+	}
+	return "", ""
 }
 
 func (Engine) execC16(sc *kernel.Scenario, res *kernel.Result, trace bool) {
@@ -431,6 +484,44 @@ func (Engine) execC16(sc *kernel.Scenario, res *kernel.Result, trace bool) {
 					}
 				}
 			}
+		}
+		for fi := range sc.Faults {
+			f := &sc.Faults[fi]
+			if f.Op != "readto" {
+				continue
+			}
+			var offs []int
+			if f.Has("at") {
+				offs = []int{modLen(f.Int("at"), len(data))}
+			} else if len(data) <= enumMaxBytes {
+				for at := 0; at < len(data); at++ {
+					offs = append(offs, at)
+				}
+			} else {
+				rr := kernel.NewRand(kernel.Derive(uint64(f.Int("seed")), "read-timeouts"))
+				for i := range frameEnds {
+					for k := 0; k < 48 && prevEnd(frameEnds, i)+k < frameEnds[i]; k++ {
+						offs = append(offs, prevEnd(frameEnds, i)+k)
+					}
+				}
+				for i := 0; i < 64; i++ {
+					offs = append(offs, rr.Intn(len(data)))
+				}
+			}
+			for _, at := range offs {
+				res.Count("fault.read-timeout", 1)
+				res.Evals++
+				check, detail := recvWithTimeout(ser, data, writes, Schedule{Every: int(f.Int("every"))}, at, ref, res)
+				if check != "" {
+					res.Fail(fi, check, "read deadline expired once at offset %d of %d (pieces of %d): %s", at, len(data), f.Int("every"), detail)
+					logf("VIOLATION %s: %s", check, res.Violation.Detail)
+					ex := *sc
+					ex.Faults = []kernel.Step{kernel.St("readto", "every", f.Int("every"), "at", at)}
+					res.Explicit = &ex
+					return
+				}
+			}
+			kernel.Progress()
 		}
 		for fi := range sc.Faults {
 			f := &sc.Faults[fi]
